@@ -27,6 +27,7 @@
 // distinct_nontrivial = number of distinct (cell, direction, line, mutated text) / (cell, input, value) cases whose
 // mutated value differs from the original and for which a verdict is asserted.
 #include "c03_protocols.hh"
+#include <sys/prctl.h>
 using namespace drv;
 using namespace c3;
 
@@ -44,6 +45,7 @@ static Expect expect_text(const Tag &t, const std::string &v, const std::string 
 {
 	if (v == w) return X_SKIP;
 	if (t.k == K_STRUCT || t.k == K_TEXT) return t.covered ? X_REJECT : X_FREE;
+	if (t.k == K_KAPPA) return X_FREE;
 	int base = (t.k == K_CNT) ? 10 : TMCG_MPZ_IO_BASE;
 	Z a, b;
 	if (!a.parse(v, base)) return X_FREE;
@@ -59,6 +61,7 @@ int main(int argc, char **argv)
 	Args A = parse(argc, argv);
 	Report R(A);
 	if (!init_libTMCG()) return 2;
+	prctl(PR_SET_THP_DISABLE, 1, 0, 0, 0);   // the library allocates 670 MB line buffers per stack secret read; do not let the kernel zero huge pages for them
 	MuteCerr mute;
 	std::string fam = A.get("family", "");
 	std::vector<Spec> S;
